@@ -237,7 +237,7 @@ func TestVerifC09(t *testing.T) {
 			if r.Err != "" {
 				ok, sig, note = false, "harness error", r.Err
 			}
-			if r.Deadlock() {
+			if r.Deadlock() && r.Err == "" {
 				ok, sig, note = false, "deadlock", fmt.Sprintf("schedule %v ends with a thread waiting for a held mutex", r.Sched)
 			}
 			var lefts []string
